@@ -38,12 +38,12 @@ def main():
     ndet = sum(1 for r in rows if "| reported |" in r)
     txt = ["## 13. Seeded breaking changes and which checks catch them", "",
            "Independent sub-agents were given only the text of one property and a scratch worktree, and asked for changes that break the property while the pinned suite still passes "
-           "(nine rounds: 40, 40, 40, 20, 20, 20, 40, 40 and 40 changes; from round 8 on every agent was also given the list of what earlier rounds had produced for its property, with the request not to repeat it; the second round asked for interactions between features, state left by earlier calls, unusual legal values, error paths, cooperating edits; the third to ninth for "
+           "(ten rounds: 40, 40, 40, 20, 20, 20, 40, 40, 40 and 40 changes; from round 8 on every agent was also given the list of what earlier rounds had produced for its property, with the request not to repeat it; the second round asked for interactions between features, state left by earlier calls, unusual legal values, error paths, cooperating edits; the third to tenth for "
            "code sites, backends and triggers the earlier rounds were unlikely to have tried). "
            "Each change was confirmed in a scratch worktree by `tools/seed_import.py` (demo passes unchanged, pinned suite 156 passed with the change, demo fails with the change) and is kept under "
            "`seeded/<name>/` (patch.diff, demo.py, meta.json). `tools/seed_eval.py` applies each patch to a scratch worktree (never /repo), points the quick check of its property at that tree (`AW_REPO`) "
            "and records the outcome. **%d of %d seeded changes are reported by the quick check of their own property** on the current machinery." % (ndet, len(rows)), "",
-           "On first evaluation the checks of the time missed 9 of 40 (round 1), 14 of 40 (round 2), 8 of 40 (round 3), 10 of 20 (round 4, which went to the ten properties with the highest earlier miss rates), 3 of 20 (round 5, the other ten properties), 7 of 20 (round 6, the first ten again) 8 of 40 (round 7, all properties; by then many submissions repeated earlier ideas), 12 of 40 (round 8) and 19 of 40 (round 9; the lists of earlier ideas pushed the agents to code sites and mechanisms nobody had touched); every miss was analysed and the generators / judges strengthened until it was reported "
+           "On first evaluation the checks of the time missed 9 of 40 (round 1), 14 of 40 (round 2), 8 of 40 (round 3), 10 of 20 (round 4, which went to the ten properties with the highest earlier miss rates), 3 of 20 (round 5, the other ten properties), 7 of 20 (round 6, the first ten again) 8 of 40 (round 7, all properties; by then many submissions repeated earlier ideas), 12 of 40 (round 8), 19 of 40 (round 9; the lists of earlier ideas pushed the agents to code sites and mechanisms nobody had touched) and 10 of 40 (round 10); every miss was analysed and the generators / judges strengthened until it was reported "
            "(never by special-casing the seeded input). What was added in response: runs of calls without intermediate reads judged as one batch "
            "(lazy-commit / rollback / cache interactions), total projection (an unreadable bucket is an observation, not a harness crash), deletes of ids that live in another bucket, "
            "out-of-contract and absurd ids ending a no-read run, stale `Bucket` handles described in every projection, bucket re-creation in the ownership model, window edges placed at the ends of "
@@ -64,7 +64,7 @@ def main():
            "categorize / tag built-ins compared with the transform on the written arguments, list-valued filter values (C11), `$`-keys, values longer than a thousand characters, case pairs only the regex engine relates, one rule dict used for several rules (C19), "
            "a spectator bucket whose id differs only in letter case, a second live Datastore with the same bucket id, equal data in different number types (C07/C08), zones at +00:00 that are not UTC and both readings of a repeated hour in one process (C13), "
            "the same bucket ids in both profiles, ids equal up to case, unpaired surrogates in legacy data (C14), orderly reopen followed by a slow trickle and workers living east of UTC (C18), id 0, results annotated by the caller (C09), duplicate ids and "
-           "tuple-versus-list data (C10), windows around the wall-clock present (C12), look-alike ids for absent-bucket calls (C05), hand-outs through limited listings (C01), arrays of tables (C20).", "",
+           "tuple-versus-list data (C10), windows around the wall-clock present (C12), look-alike ids for absent-bucket calls (C05), hand-outs through limited listings (C01), arrays of tables (C20); after round 10: data values equal in Python but different as JSON and metadata handed out by the datastore listing (C01), a single insert of an event carrying another bucket's id (C04), an event write through the handle of a deleted bucket before an absent-bucket call (C05), heartbeat-style runs of more than fifty last-event rewrites, payloads that outgrow SQLite's page cache and a total observation of damaged files (C06), text that is not in composed normal form (C07), query_bucket compared with a direct windowed read inside every query (C11), a second bucket whose id differs in letter case only (C12), null-valued data keys (C13).", "",
            "| seeded change | property | what it needs in order to manifest | quick check | first reported line |", "|---|---|---|---|---|"] + rows + ["",
            "Seeded changes that stopped being breaking changes when a genuine defect was repaired (kept for the record, not counted above):", "",
            "| seeded change | property | why it no longer breaks the property |", "|---|---|---|"] + neutral + ["",
